@@ -5,7 +5,6 @@ import (
 	"fmt"
 	"io"
 	"os"
-	"strconv"
 	"time"
 
 	"golang.org/x/term"
@@ -35,7 +34,7 @@ func (d *destinationStdout) log(t time.Time, level Level, format string, args ..
 		d.buf.WriteString(`","level":"`)
 		writeLevel(&d.buf, level, false)
 		d.buf.WriteString(`","message":`)
-		d.buf.WriteString(strconv.Quote(fmt.Sprintf(format, args...)))
+		writeJSONString(&d.buf, fmt.Sprintf(format, args...))
 		d.buf.WriteString(`}`)
 		d.buf.WriteByte('\n')
 	} else {
